@@ -10,101 +10,7 @@ set_option linter.unnecessarySimpa false
 
 namespace Glom.C16
 
-/-! ### without STOP events in nested runs, `valOfC true` is the property's reference -/
-
-theorem cutStop_subset (f : Fn) (its : List V) : ∀ i ∈ cutStop f its, i ∈ its := by
-  intro i hi
-  exact (List.takeWhile_sublist _).subset hi
-
-theorem bucketize_subset (key : Fn) (its : List V) : ∀ b ∈ bucketize key its, ∀ i ∈ b.2, i ∈ its := by
-  intro b hb i hi
-  have := foldl_buckets_inv key (Q := fun _ => True) its (cutStop key its) [] (cutStop_subset key its)
-    (fun _ _ _ => trivial) (by simp) b hb
-  exact this.2.2 i hi
-
-theorem map_congr_mem {α β : Type} {f g : α → β} : ∀ {xs : List α}, (∀ x ∈ xs, f x = g x) → xs.map f = xs.map g := by
-  intro xs
-  induction xs with
-  | nil => intro _; rfl
-  | cons x xs ih =>
-    intro h
-    simp only [List.map_cons]
-    rw [h x List.mem_cons_self, ih (fun y hy => h y (List.mem_cons_of_mem _ hy))]
-
-theorem nestedFree_subset : ∀ (s : GSpec) {xs ys : List V}, (∀ i ∈ ys, i ∈ xs) →
-    nestedFree s xs = true → nestedFree s ys = true
-  | .agg .., _, _, _, _ => rfl
-  | .fn _, _, _, _, _ => rfl
-  | .list .., _, _, _, _ => rfl
-  | .limit _ _ sub, _, _, h, hx => nestedFree_subset sub h hx
-  | .nested _, _, _, h, hx => all_subset h hx
-  | .dict _ _ _ sub, _, _, h, hx => nestedFree_subset sub h hx
-
-theorem valOfC_eq : ∀ (s : GSpec) (its : List V), nestedFree s its = true → valOfC true s its = valOfC false s its
-  | .agg .., _, _ => rfl
-  | .fn _, _, _ => rfl
-  | .list .., _, _ => rfl
-  | .limit oid n sub, its, h => by
-    simp only [valOfC]
-    rw [valOfC_eq sub (its.take n) (nestedFree_subset sub (fun i hi => List.mem_of_mem_take hi) h)]
-  | .dict id kid key sub, its, h => by
-    simp only [valOfC]
-    congr 1
-    apply map_congr_mem
-    intro b hb
-    have hbm := bucketize_subset key its b (List.mem_filter.mp hb).1
-    rw [valOfC_eq sub b.2 (nestedFree_subset sub hbm h)]
-  | .nested g, its, h => by
-    simp only [valOfC]
-    cases hl : its.getLast? with
-    | none => rfl
-    | some x =>
-      have hxm : x ∈ its := List.mem_of_getLast? hl
-      simp only [nestedFree, List.all_eq_true, Bool.and_eq_true] at h
-      obtain ⟨hef, hnf⟩ := h x hxm
-      simp only [if_true, cutEvent_of_eventFree hef, emptyOr, Bool.false_eq_true, if_false]
-      split
-      · rfl
-      · exact valOfC_eq g _ hnf
-
-/-- **no STOP event, neither in nested runs**: what the code computes is the hand-written loop -/
-theorem implTop_eq_valOfTop (g : GSpec) (items : List V) (hef : eventFree g items = true)
-    (hnf : nestedFree g items = true) : implTop g items = valOfTop g items := by
-  simp only [implTop, valOfTop, cutEvent_of_eventFree hef, emptyOr]
-  split
-  · rfl
-  · exact valOfC_eq g items hnf
-
-theorem groupEval_spec (g : GSpec) (items : List V) (h : Hyp false g items) (hef : eventFree g items = true)
-    (hnf : nestedFree g items = true) : groupEval g items = .ok (valOfTop g items) := by
-  rw [groupEval_exact g items h, implTop_eq_valOfTop g items hef hnf]
-
-/-! ### the earlier hypotheses (H1' `stopFree`, H2 `keysApart`) imply the present ones -/
-
-theorem slotApart_of_keysApart : ∀ (s : GSpec) (its : List V), keysApart s its = true → slotApart s its = true
-  | .agg .., _, _ => rfl
-  | .fn _, _, _ => rfl
-  | .list .., _, _ => rfl
-  | .limit _ _ sub, its, h => slotApart_of_keysApart sub its h
-  | .nested g, its, h => by
-    simp only [keysApart, slotApart, List.all_eq_true] at h ⊢
-    exact fun x hx => slotApart_of_keysApart g _ (h x hx)
-  | .dict id kid key sub, its, h => by
-    simp only [keysApart, slotApart, Bool.and_eq_true, List.all_eq_true, Bool.not_eq_true'] at h ⊢
-    exact ⟨fun x hx => (h.1 x hx).1, slotApart_of_keysApart sub its h.2⟩
-
-theorem stopFree_subset : ∀ (b : Bool) (s : GSpec) {xs ys : List V}, (∀ i ∈ ys, i ∈ xs) →
-    stopFree b s xs = true → stopFree b s ys = true
-  | _, .agg _ a, _, _, _, hx => by cases a <;> simpa [stopFree] using hx
-  | _, .fn _, _, _, h, hx => all_subset h hx
-  | _, .list _ _, _, _, h, hx => all_subset h hx
-  | _, .limit .., _, _, _, hx => by simp [stopFree] at hx
-  | _, .nested _, _, _, h, hx => by
-    simp only [stopFree, Bool.and_eq_true] at hx ⊢
-    exact ⟨hx.1, all_subset h hx.2⟩
-  | _, .dict _ _ _ sub, _, _, h, hx => by
-    simp only [stopFree, Bool.and_eq_true] at hx ⊢
-    exact ⟨all_subset h hx.1, stopFree_subset true sub h hx.2⟩
+/-! ### when the code's result is the hand-written loop's -/
 
 theorem buckets_subset (key : Fn) (its : List V) : ∀ b ∈ buckets key its, ∀ i ∈ b.2, i ∈ its := by
   intro b hb
@@ -115,89 +21,177 @@ theorem bucketOf_subset (key : Fn) (its : List V) (k : V) : ∀ i ∈ bucketOf (
   · rw [h0]; intro i hi; simp at hi
   · rw [← h0]; exact buckets_subset key its b hb
 
-/-- a STOP-free spec never says STOP -/
-theorem stopsAt_of_stopFree : ∀ (s : GSpec) (b : Bool) (its p : List V) (x : V), stopFree b s its = true →
-    (∀ i ∈ p, i ∈ its) → x ∈ its → stopsAt s p x = false
-  | .agg _ a, _, _, _, _, h, _, _ => by cases a <;> simp [stopFree, stopsAt] at h ⊢
-  | .fn f, _, _, _, x, h, _, hx => by
-    simp only [stopFree, List.all_eq_true, Bool.and_eq_true, Bool.not_eq_true'] at h
-    simpa [stopsAt] using (h x hx).1
-  | .list _ f, _, _, _, x, h, _, hx => by
-    simp only [stopFree, List.all_eq_true, Bool.not_eq_true'] at h
-    simpa [stopsAt] using h x hx
-  | .limit .., _, _, _, _, h, _, _ => by simp [stopFree] at h
-  | .nested _, _, _, _, _, _, _, _ => rfl
-  | .dict id kid key sub, _, its, p, x, h, hp, hx => by
-    simp only [stopFree, Bool.and_eq_true, List.all_eq_true, Bool.not_eq_true'] at h
-    have hsub := stopsAt_of_stopFree sub true its (bucketOf (buckets key p) (key.val x)) x h.2
-      (fun i hi => hp i (bucketOf_subset key p _ i hi)) hx
-    simp [stopsAt, h.1 x hx, hsub]
+theorem isSkip_unskip (v : V) : isSkip (unskip v) = false := by cases v <;> rfl
 
-theorem eventFreeFrom_of_stopFree (s : GSpec) (b : Bool) (its : List V) (h : stopFree b s its = true) :
-    ∀ (rest done : List V), (∀ i ∈ done, i ∈ its) → (∀ i ∈ rest, i ∈ its) → eventFreeFrom s done rest = true := by
-  intro rest
-  induction rest with
-  | nil => intro _ _ _; rfl
-  | cons x xs ih =>
-    intro done hd hr
-    have hx : x ∈ its := hr x List.mem_cons_self
-    simp only [eventFreeFrom, stopsAt_of_stopFree s b its done x h hd hx, Bool.not_false, Bool.true_and]
-    exact ih _ (fun i hi => by
-      rcases List.mem_append.mp hi with h1 | h1
-      · exact hd i h1
-      · simp at h1; subst h1; exact hx) (fun i hi => hr i (List.mem_cons_of_mem _ hi))
+theorem unskip_of_not_skip {v : V} (h : isSkip v = false) : unskip v = v := by
+  cases v <;> simp [isSkip] at h ⊢ <;> rfl
 
-theorem eventFree_of_stopFree (s : GSpec) (b : Bool) (its : List V) (h : stopFree b s its = true) :
-    eventFree s its = true :=
-  eventFreeFrom_of_stopFree s b its h its [] (by simp) (fun _ hi => hi)
+theorem lastNonSkip_of_none_skip {vs : List V} (h : ∀ v ∈ vs, isSkip v = false) :
+    lastNonSkip vs = vs.getLast?.getD .skip := by
+  unfold lastNonSkip
+  rw [List.filter_eq_self.mpr (fun v hv => by simp [h v hv])]
 
-theorem nestedFree_of_stopFree : ∀ (s : GSpec) (b : Bool) (its : List V), stopFree b s its = true →
-    nestedFree s its = true
-  | .agg .., _, _, _ => rfl
-  | .fn _, _, _, _ => rfl
-  | .list .., _, _, _ => rfl
-  | .limit .., _, _, h => by simp [stopFree] at h
-  | .dict _ _ _ sub, _, its, h => by
-    simp only [stopFree, Bool.and_eq_true] at h
-    exact nestedFree_of_stopFree sub true its h.2
-  | .nested g, _, its, h => by
-    simp only [stopFree, Bool.and_eq_true, List.all_eq_true] at h
-    simp only [nestedFree, List.all_eq_true, Bool.and_eq_true]
-    exact fun x hx => ⟨eventFree_of_stopFree g false _ (h.2 x hx), nestedFree_of_stopFree g false _ (h.2 x hx)⟩
-
-theorem noSkipBelow_of_stopFree : ∀ (s : GSpec) (b : Bool) (its : List V), stopFree b s its = true →
-    noSkipBelow b s its = true
+/-- a spec that cannot yield SKIP at its top says the same below a key level and at the top -/
+theorem noSkipBelow_strengthen : ∀ (s : GSpec) (its : List V), canSkip s = false →
+    noSkipBelow false s its = true → noSkipBelow true s its = true
   | .agg .., _, _, _ => rfl
   | .list .., _, _, _ => rfl
-  | .limit .., _, _, h => by simp [stopFree] at h
-  | .fn f, b, its, h => by
-    simp only [stopFree, List.all_eq_true, Bool.and_eq_true, Bool.not_eq_true'] at h
-    cases b with
-    | false => simp [noSkipBelow]
-    | true =>
-      simp only [noSkipBelow, Bool.not_true, Bool.false_or, List.all_eq_true, Bool.not_eq_true']
-      intro x hx
-      simpa using (h x hx).2
-  | .dict _ _ _ sub, _, its, h => by
-    simp only [stopFree, Bool.and_eq_true] at h
-    exact noSkipBelow_of_stopFree sub true its h.2
-  | .nested g, b, its, h => by
-    simp only [stopFree, Bool.and_eq_true, List.all_eq_true] at h
-    simp only [noSkipBelow, Bool.and_eq_true, List.all_eq_true, Bool.or_eq_true]
-    refine ⟨?_, fun x hx => noSkipBelow_of_stopFree g false _ (h.2 x hx)⟩
-    cases its with
-    | nil => left; rfl
-    | cons y ys =>
-      right
-      have hy := h.2 y List.mem_cons_self
-      have h1 := h.1
-      cases g with
-      | fn f => simp at h1; simp [h1]
-      | nested g2 => simp at h1; simp [h1]
-      | limit oid n sub => simp [stopFree] at hy
-      | agg oid a => simp [canSkip]
-      | list id f => simp [canSkip]
-      | dict id kid key sub => simp [canSkip]
+  | .fn _, _, hc, _ => by simp [canSkip] at hc
+  | .dict _ _ _ sub, its, _, h => h
+  | .limit _ _ sub, its, hc, h => noSkipBelow_strengthen sub its (by simpa [canSkip] using hc) h
+  | .nested _ g, its, hc, h => by
+    have hc' : canSkip g = false := by simpa [canSkip] using hc
+    simp only [noSkipBelow, Bool.and_eq_true] at h ⊢
+    exact ⟨by simp [hc'], h.2⟩
+
+theorem nestedFree_subset : ∀ (s : GSpec) {xs ys : List V}, (∀ i ∈ ys, i ∈ xs) →
+    nestedFree s xs = true → nestedFree s ys = true
+  | .agg .., _, _, _, _ => rfl
+  | .fn _, _, _, _, _ => rfl
+  | .list .., _, _, _, _ => rfl
+  | .limit _ _ sub, _, _, h, hx => nestedFree_subset sub h hx
+  | .nested .., _, _, h, hx => all_subset h hx
+  | .dict _ _ _ sub, _, _, h, hx => nestedFree_subset sub h hx
+
+/-- the hypotheses of a key level, for one of its buckets -/
+theorem Hyp.bucket {b : Bool} {id kid : Nat} {key : Fn} {sub : GSpec} {its : List V}
+    (h : Hyp b (.dict id kid key sub) its) {bk : V × List V} (hb : bk ∈ buckets key its) : Hyp true sub bk.2 := by
+  have hwf := h.wf
+  have hsa := h.sa
+  have hns := h.ns
+  simp only [wfRun, Bool.and_eq_true, List.all_eq_true] at hwf
+  simp only [slotApart, Bool.and_eq_true] at hsa
+  simp only [noSkipBelow] at hns
+  have hm := buckets_subset key its bk hb
+  exact ⟨hwf.2 bk hb, slotApart_subset sub hm hsa.2, noSkipBelow_subset true sub hm hns⟩
+
+/-- … and for the bucket the next item `x` goes to, `x` included -/
+theorem Hyp.bucket_snoc {b : Bool} {id kid : Nat} {key : Fn} {sub : GSpec} {its : List V} {x : V}
+    (h : Hyp b (.dict id kid key sub) (its ++ [x])) (hsk : isSkip (key.val x) = false) :
+    Hyp true sub (bucketOf (buckets key its) (key.val x) ++ [x]) := by
+  have hwf := h.wf
+  have hsa := h.sa
+  have hns := h.ns
+  simp only [wfRun, Bool.and_eq_true, List.all_eq_true] at hwf
+  simp only [slotApart, Bool.and_eq_true] at hsa
+  simp only [noSkipBelow] at hns
+  have hbm := bucketOf_subset key its (key.val x)
+  have hw : wfRun sub (bucketOf (buckets key its) (key.val x) ++ [x]) = true := by
+    have h2 := hwf.2
+    rw [buckets_snoc, bucketStep_eq] at h2
+    simp only [hsk, Bool.false_eq_true, if_false] at h2
+    obtain ⟨bn, hbn, hbn2⟩ := addTo_has_new (buckets key its) (key.val x) x
+    rw [← hbn2]; exact h2 bn hbn
+  exact ⟨hw, slotApart_subset sub (snoc_subset hbm) hsa.2, noSkipBelow_subset true sub (snoc_subset hbm) hns⟩
+
+/-- **no STOP event, no SKIP from a bare function / nested Group, no nested Group over nothing**:
+    what the code computes over a non-empty list of items is the hand-written loop's value -/
+theorem implOf_eq_refOf : ∀ (s : GSpec) (its : List V), its ≠ [] → Hyp true s its →
+    eventFree s its = true → nestedFree s its = true → implOf s its = refOf s its
+  | .agg .., _, _, _, _, _ => rfl
+  | .list .., _, _, _, _, _ => rfl
+  | .fn f, its, hne, h, hef, _ => by
+    have hst := eventFree_leaf_fn f its hef
+    have hcut : cutStop f its = its := cutStop_all hst
+    obtain ⟨x, hx, hxm⟩ := getLast?_ne_nil hne
+    have hns := h.ns
+    simp only [noSkipBelow, Bool.not_true, Bool.false_or, List.all_eq_true, Bool.not_eq_true'] at hns
+    have hie : its.isEmpty = false := by simpa using hne
+    simp only [implOf, refOfC, hcut, hx, hie, Bool.false_eq_true, if_false]
+    rw [lastNonSkip_of_none_skip (by
+      intro v hv; simp only [List.mem_map] at hv; obtain ⟨y, hy, rfl⟩ := hv; exact hns y hy)]
+    simp [List.getLast?_map, hx]
+  | .limit oid n sub, its, hne, h, hef, hnf => by
+    obtain ⟨hlen, hsub⟩ := eventFree_limit oid n sub its hef
+    rw [implOf_limit oid n sub its hne hlen]
+    simp only [refOfC, List.take_of_length_le hlen]
+    exact implOf_eq_refOf sub its hne h.sub_limit hsub hnf
+  | .dict id kid key sub, its, hne, h, hef, hnf => by
+    rw [implOf_dict id kid key sub its hef]
+    have hcut : cutStop key its = its := cutStop_all (eventFree_dict_keys id kid key sub its hef)
+    have hbz : bucketize key its = buckets key its := by simp [bucketize, buckets, hcut]
+    have heq : ∀ bk ∈ buckets key its, implOf sub bk.2 = refOf sub bk.2 ∧ isSkip (refOf sub bk.2) = false := by
+      intro bk hbk
+      have hb := (buckets_inv key (Q := fun _ => True) its (fun _ _ _ => trivial) bk hbk).2
+      have hH := h.bucket hbk
+      have hefb := eventFree_buckets id kid key sub its hef bk hbk
+      have hnfb := nestedFree_subset sub hb.2 (by simpa only [nestedFree] using hnf)
+      have e := implOf_eq_refOf sub bk.2 hb.1 hH hefb hnfb
+      exact ⟨e, by rw [← e]; exact (valOf_not_sentinel sub true bk.2 hb.1 hH hefb).2 rfl⟩
+    simp only [refOfC, hbz]
+    congr 1
+    rw [List.filter_eq_self.mpr (by
+      intro e he; simp only [List.mem_map] at he; obtain ⟨bk, hbk, rfl⟩ := he
+      simp [(heq bk hbk).2])]
+    exact List.map_congr_left (fun bk hbk => by rw [(heq bk hbk).1])
+  | .nested gid g, its, hne, h, _, hnf => by
+    obtain ⟨x, hx, hxm⟩ := getLast?_ne_nil hne
+    have hie : its.isEmpty = false := by simpa using hne
+    have hns := h.ns
+    simp only [noSkipBelow, hie, Bool.false_or, Bool.true_and, Bool.and_eq_true, Bool.not_eq_true',
+      List.all_eq_true] at hns
+    simp only [nestedFree, List.all_eq_true, Bool.and_eq_true, Bool.not_eq_true'] at hnf
+    -- every item's own run: event-free, not over nothing
+    have hitem : ∀ y ∈ its, implOf g ((iterOf y).getD []) = refOf g ((iterOf y).getD []) ∧
+        isSkip (implOf g ((iterOf y).getD [])) = false := by
+      intro y hy
+      obtain ⟨⟨hef, hnem⟩, hnf'⟩ := hnf y hy
+      have hin := (h.inner hy).2
+      have hne' : (iterOf y).getD [] ≠ [] := by simpa using hnem
+      have hin' : Hyp true g ((iterOf y).getD []) :=
+        ⟨hin.wf, hin.sa, noSkipBelow_strengthen g _ hns.1 (hns.2 y hy)⟩
+      exact ⟨implOf_eq_refOf g _ hne' hin' hef hnf', noSkip_of_not_canSkip g _ hns.1 hne' hin hef⟩
+    obtain ⟨⟨hefx, hnemx⟩, _⟩ := hnf x hxm
+    have hnex : ((iterOf x).getD []).isEmpty = false := hnemx
+    simp only [implOf, refOfC, hx, hie, Bool.false_eq_true, if_false, cutEvent_of_eventFree hefx, emptyOr, hnex]
+    rw [lastNonSkip_of_none_skip (by
+      intro v hv; simp only [List.mem_map] at hv; obtain ⟨y, _, rfl⟩ := hv; exact isSkip_unskip _)]
+    simp only [List.getLast?_map, hx, Option.map_some, Option.getD_some]
+    have e := (hitem x hxm).1
+    simp only [refOf] at e
+    rw [← e, unskip_of_not_skip (hitem x hxm).2]
+
+/-- the reference of a key level over an event-free, SKIP-free run: the plain bucket map -/
+theorem refOf_dict (id kid : Nat) (key : Fn) (sub : GSpec) (its : List V)
+    (h : Hyp true (.dict id kid key sub) its) (hef : eventFree (.dict id kid key sub) its = true)
+    (hnf : nestedFree (.dict id kid key sub) its = true) :
+    refOf (.dict id kid key sub) its = .dict ((buckets key its).map (fun b => (b.1, refOf sub b.2))) := by
+  have hcut : cutStop key its = its := cutStop_all (eventFree_dict_keys id kid key sub its hef)
+  have hbz : bucketize key its = buckets key its := by simp [bucketize, buckets, hcut]
+  have hsk : ∀ bk ∈ buckets key its, isSkip (refOf sub bk.2) = false := by
+    intro bk hbk
+    have hb := (buckets_inv key (Q := fun _ => True) its (fun _ _ _ => trivial) bk hbk).2
+    have hH := h.bucket hbk
+    have hefb := eventFree_buckets id kid key sub its hef bk hbk
+    have hnfb := nestedFree_subset sub hb.2 (by simpa only [nestedFree] using hnf)
+    rw [← implOf_eq_refOf sub bk.2 hb.1 hH hefb hnfb]
+    exact (valOf_not_sentinel sub true bk.2 hb.1 hH hefb).2 rfl
+  simp only [refOf, refOfC, hbz]
+  congr 1
+  exact List.filter_eq_self.mpr (by
+    intro e he; simp only [List.mem_map] at he; obtain ⟨bk, hbk, rfl⟩ := he
+    have := hsk bk hbk
+    simp only [refOf] at this
+    simp [this])
+
+/-- **no STOP event (nested runs included), no SKIP leaf, nothing evaluated over no items (unless an
+    empty container / None is what the loop gives there)**: what the code computes is the hand-written
+    loop -/
+theorem implTop_eq_valOfTop (g : GSpec) (items : List V) (h : Hyp true g items) (hef : eventFree g items = true)
+    (hnf : nestedFree g items = true) (hem : items = [] → emptyOf g = valOfTop g []) :
+    implTop g items = valOfTop g items := by
+  by_cases hne : items = []
+  · subst hne; simpa [implTop, emptyOr, cutEvent, cutFrom] using hem rfl
+  · have hie : items.isEmpty = false := by simpa using hne
+    simp only [implTop, valOfTop, cutEvent_of_eventFree hef, emptyOr, hie, Bool.false_eq_true, if_false]
+    rw [← implOf_eq_refOf g items hne h hef hnf]
+    exact (unskip_of_not_skip ((valOf_not_sentinel g true items hne h hef).2 rfl)).symm
+
+theorem groupEval_spec (g : GSpec) (items : List V) (h : Hyp true g items) (hef : eventFree g items = true)
+    (hnf : nestedFree g items = true) (hem : items = [] → emptyOf g = valOfTop g []) :
+    groupEval g items = .ok (valOfTop g items) := by
+  rw [groupEval_exact g items ⟨h.wf, h.sa, noSkipBelow_weaken g items h.ns⟩,
+    implTop_eq_valOfTop g items h hef hnf hem]
 
 /-! ### top-level Limit(n) and First -/
 
@@ -223,20 +217,33 @@ theorem cutEvent_limit (oid n : Nat) (sub : GSpec) (items : List V) (h : eventFr
     cutEvent (.limit oid n sub) items = items.take n := by
   simpa [cutEvent] using cutFrom_limit oid n sub items [] (Nat.zero_le _) h
 
-theorem limit_spec (oid n : Nat) (sub : GSpec) (items : List V) (h : Hyp false sub items)
-    (hef : eventFree sub items = true) (hnf : nestedFree sub items = true) :
-    groupEval (.limit oid n sub) items = .ok (valOfTop (.limit oid n sub) items) := by
-  rw [groupEval_exact (.limit oid n sub) items ⟨h.wf, h.sa, h.ns⟩]
+/-- `Group(Limit(n, sub))`, n ≥ 1, over at least one item: `sub` over the first `n` items -/
+theorem limit_spec (oid n : Nat) (sub : GSpec) (items : List V) (hn : n ≠ 0) (hne : items ≠ [])
+    (h : Hyp true sub items) (hef : eventFree sub items = true) (hnf : nestedFree sub items = true) :
+    groupEval (.limit oid n sub) items = .ok (valOfTop sub (items.take n)) := by
+  rw [groupEval_exact (.limit oid n sub) items ⟨h.wf, h.sa, noSkipBelow_weaken sub items h.ns⟩]
   congr 1
-  simp only [implTop, valOfTop, emptyOr, cutEvent_limit oid n sub items hef, emptyOf, valOfC]
+  have hpre : items = items.take n ++ items.drop n := (List.take_append_drop n items).symm
+  have hH : Hyp true sub (items.take n) := by rw [hpre] at h; exact h.init
+  have hef' : eventFree sub (items.take n) = true := by
+    have := cutEvent_eventFree (.limit oid n sub) items
+    rw [cutEvent_limit oid n sub items hef] at this
+    exact (eventFree_limit oid n sub _ this).2
+  have hnf' : nestedFree sub (items.take n) = true :=
+    nestedFree_subset sub (fun i hi => List.mem_of_mem_take hi) hnf
+  have hne' : items.take n ≠ [] := by
+    cases items with
+    | nil => exact absurd rfl hne
+    | cons y ys => cases n with
+      | zero => exact absurd rfl hn
+      | succ m => simp
+  have hie : (items.take n).isEmpty = false := by simpa using hne'
+  have hn0 : (n == 0) = false := by simpa using hn
   have htt : (items.take n).take n = items.take n := by simp [List.take_take]
-  rw [htt, valOfC_eq sub (items.take n) (nestedFree_subset sub (fun i hi => List.mem_of_mem_take hi) hnf)]
-  cases items with
-  | nil => simp
-  | cons y ys =>
-    cases n with
-    | zero => simp
-    | succ m => simp
+  simp only [implTop, emptyOr, cutEvent_limit oid n sub items hef, hie, Bool.false_eq_true, if_false, implOf, hn0, htt]
+  rw [implOf_eq_refOf sub _ hne' hH hef' hnf', valOfTop]
+  rw [← implOf_eq_refOf sub _ hne' hH hef' hnf']
+  exact (unskip_of_not_skip ((valOf_not_sentinel sub true _ hne' hH hef').2 rfl)).symm
 
 theorem first_spec (oid : Nat) (items : List V) (hp : ∀ x ∈ items, isStop x = false ∧ isSkip x = false) :
     groupEval (.agg oid .first) items = .ok (items.head?.getD .none) := by
@@ -252,55 +259,6 @@ theorem first_spec (oid : Nat) (items : List V) (hp : ∀ x ∈ items, isStop x 
     | cons y ys => rfl
 
 /-! ### per-bucket independence -/
-
-theorem keyEq_trans (a b c : V) (h1 : keyEq a b = true) (h2 : keyEq b c = true) : keyEq a c = true := by
-  cases a <;> cases b <;> simp [keyEq] at h1 <;> cases c <;> simp [keyEq] at h2 ⊢ <;>
-    (try subst_vars) <;> (try simp_all) <;> (try (split at * <;> simp_all <;> omega))
-
-/-- the items a hand-written loop routes to the bucket of key `k` -/
-def routed (key : Fn) (k : V) (its : List V) : List V :=
-  its.filter (fun x => !(isSkip (key.val x)) && keyEq (key.val x) k)
-
-theorem bucketOf_addTo_gen (bs : List (V × List V)) (kx k x : V) :
-    bucketOf (addTo bs kx x) k = if keyEq kx k then bucketOf bs k ++ [x] else bucketOf bs k := by
-  induction bs with
-  | nil => by_cases h : keyEq kx k = true <;> simp [addTo, bucketOf, h]
-  | cons b0 bs ih =>
-    obtain ⟨k', its⟩ := b0
-    by_cases h1 : keyEq k' kx = true
-    · simp only [addTo, h1, if_true, bucketOf]
-      by_cases h2 : keyEq kx k = true
-      · simp [h2, keyEq_trans _ _ _ h1 h2]
-      · have h3 : keyEq k' k = false := by
-          cases h3 : keyEq k' k with
-          | false => rfl
-          | true =>
-            exact absurd (keyEq_trans _ _ _ (by rw [keyEq_symm]; exact h1) h3) h2
-        simp [h2, h3]
-    · have h1' : keyEq k' kx = false := by simpa using h1
-      simp only [addTo, h1', Bool.false_eq_true, if_false, bucketOf, ih]
-      by_cases h3 : keyEq k' k = true
-      · have h2 : keyEq kx k = false := by
-          cases h2 : keyEq kx k with
-          | false => rfl
-          | true =>
-            exact absurd (keyEq_trans _ _ _ h3 (by rw [keyEq_symm]; exact h2)) h1
-        simp [h3, h2]
-      · simp [h3]
-
-/-- **the bucket of `k` holds exactly the items whose key equals `k`, in encounter order** -/
-theorem bucketOf_buckets (key : Fn) (k : V) : ∀ its, bucketOf (buckets key its) k = routed key k its := by
-  intro its
-  induction its using snoc_induction with
-  | h0 => rfl
-  | hs its x ih =>
-    rw [buckets_snoc, bucketStep_eq]
-    by_cases hs : isSkip (key.val x) = true
-    · simp [hs, ih, routed, List.filter_append]
-    · have hs' : isSkip (key.val x) = false := by simpa using hs
-      simp only [hs', Bool.false_eq_true, if_false, bucketOf_addTo_gen, ih, routed, List.filter_append,
-        List.filter_cons, List.filter_nil, Bool.not_false, Bool.true_and]
-      by_cases hk : keyEq (key.val x) k = true <;> simp [hk]
 
 theorem bhas_eq_bucketOf {bs : List (V × List V)} (hne : ∀ b ∈ bs, b.2 ≠ []) (k : V) :
     bhas bs k = !(bucketOf bs k).isEmpty := by
